@@ -234,6 +234,12 @@ def main(argv=None):
     except ValueError:
         seed = 0
     import stereomolgraph  # noqa: F401  (fail early, and share the import with forked workers)
+    try:
+        from rdkit import RDLogger
+
+        RDLogger.DisableLog("rdApp.*")
+    except Exception:
+        pass
 
     mod = importlib.import_module(f"smgverif.checks.{prop.lower()}")
     if a.replay:
